@@ -56,12 +56,9 @@ PLAN = dict(
     ), dict(
         crate="tracing", tls_shim_crates=["tracing-core"], once_cell_stub=True, tag="macros-contracts",
         modules=[dict(name="__verif_c01q", attach="lib", files=["macro_guard_inv.kani.rs"])],
-    ), dict(
-        crate="tracing", tls_shim_crates=["tracing-core"], once_cell_stub=True, tag="macros", jobs=2, timeout_s=3000,
-        modules=[dict(name="__verif_c01", attach="lib", files=["macro_guard.kani.rs"])],
     )],
-    manifest=dict(technique='Verus lemmas (fold, invariant preservation, guard exactness) over Kani-discharged contracts of the real registry functions; the real macro expansions verified against those contracts (quick) and end to end through the real registry (thorough)',
-        text='The unbounded part (any number of collectors, any finite history, guard exactness) is proved in Verus from function contracts; those contracts are discharged by Kani on the real code from arbitrary prior cache state, with a stated width bound (3 registrars x 2 callsites) that the fold lemma generalises. The real event!/span!/enabled! expansions and MacroCallsite are verified in the quick tier against exactly those contracts (cached interest = fold, published level >= live hints, get_default = current collector) for every state the contracts allow, with a must-fail canary that drops the cache contract; the end-to-end runs through the real registry are the thorough tier.',
+    manifest=dict(technique='Verus lemmas (fold, invariant preservation, guard exactness) over Kani-discharged contracts of the real registry functions; the real macro expansions verified against those contracts',
+        text='The unbounded part (any number of collectors, any finite history, guard exactness) is proved in Verus from function contracts; those contracts are discharged by Kani on the real code from arbitrary prior cache state, with a stated width bound (3 registrars x 2 callsites) that the fold lemma generalises. The real event!/span!/enabled! expansions and MacroCallsite are verified in the quick tier against exactly those contracts (cached interest = fold, published level >= live hints, get_default = current collector) for every state the contracts allow, with a must-fail canary that drops the cache contract. End-to-end runs of the macros through the REAL global registry are not part of the registered checks: even the lightest of them (enabled! probe, two collectors) did not finish in 50 min / 21 GB of CBMC (source kept in contracts/C01/unregistered/).',
         note='Trusted: Kani/CBMC, Verus/Z3, the shims and stubs listed in evidence. Bounded, never counted as proved: registrar-list width 3, callsite-list length 3. Not decided: interleavings (C04), non-default max_level features.',
         design_ref="DESIGN.md section 4, C01"),
 )
